@@ -600,4 +600,52 @@ theorem inv_preserved (p : P) (s : S) (t : Int) (hi : Inv p s)
         omega
 end HowlingGale
 
+
+namespace Wind
+theorem orb_stack_bounded (po : CosmicOrb.P) (pb : CosmicBurst.P) (ps : CosmicShower.P) (pc : Cosmos.P)
+    (so : CosmicOrb.S) (sb : CosmicBurst.S) (ss : CosmicShower.S) (sc : Cosmos.S) :
+    (so.orb.stack ≤ so.orb.maximumStack ∧ 0 ≤ so.orb.maximumStack →
+      (CosmicOrb.increase po so).1.orb.stack ≤ (CosmicOrb.increase po so).1.orb.maximumStack ∧
+      (CosmicOrb.maximize po so).1.orb.stack ≤ (CosmicOrb.maximize po so).1.orb.maximumStack ∧
+      (CosmicOrb.increase po so).1.orb.maximumStack = so.orb.maximumStack ∧
+      (CosmicOrb.maximize po so).1.orb.maximumStack = so.orb.maximumStack) ∧
+    (sb.orb.stack ≤ sb.orb.maximumStack ∧ 0 ≤ sb.orb.maximumStack →
+      (CosmicBurst.trigger pb sb).1.orb.stack ≤ sb.orb.maximumStack ∧
+      (CosmicBurst.trigger pb sb).1.orb.maximumStack = sb.orb.maximumStack) ∧
+    (ss.orb.stack ≤ ss.orb.maximumStack ∧ 0 ≤ ss.orb.maximumStack → ∀ r, CosmicShower.use ps ss = .ok r →
+      r.1.orb.stack ≤ ss.orb.maximumStack ∧ r.1.orb.maximumStack = ss.orb.maximumStack) ∧
+    (sc.orb.stack ≤ sc.orb.maximumStack ∧ 0 ≤ sc.orb.maximumStack → ∀ r, Cosmos.use pc sc = .ok r →
+      r.1.orb.stack ≤ sc.orb.maximumStack ∧ r.1.orb.maximumStack = sc.orb.maximumStack) := by
+  refine ⟨?_, ?_, ?_, ?_⟩
+  · intro h
+    simp only [CosmicOrb.increase, CosmicOrb.maximize, CosmicOrb.regulateIfNoCosmicForge, LastingStack.increase,
+      LastingStack.regulate]
+    refine ⟨?_, ?_, ?_, ?_⟩
+    · split <;> split <;> simp only [] <;> omega
+    · split <;> simp only [] <;> omega
+    · split <;> split <;> rfl
+    · split <;> rfl
+  · intro h
+    unfold CosmicBurst.trigger
+    split
+    · exact ⟨h.1, rfl⟩
+    · exact ⟨h.2, rfl⟩
+  · intro h r hr
+    unfold CosmicShower.use at hr
+    split at hr
+    · cases hr; exact ⟨h.1, rfl⟩
+    · simp only at hr
+      split at hr
+      · cases hr
+      · cases hr; exact ⟨h.2, rfl⟩
+  · intro h r hr
+    unfold Cosmos.use at hr
+    split at hr
+    · cases hr; exact ⟨h.1, rfl⟩
+    · simp only at hr
+      split at hr
+      · cases hr
+      · cases hr; exact ⟨h.2, rfl⟩
+end Wind
+
 end Simaple.Comp
